@@ -132,7 +132,6 @@ def evalCore (hook : Expr → Res) (ρ : Env) : Expr → Res
   | .inLits a lits =>
       match evalCore hook ρ a with
       | none => none
-      | some (.obj _) => none            -- comparing an uncomparable map panics; enforce() recovers
       | some x => some (.bool (lits.any (fun l => l.toVal == x)))
   | .call2 fn a b =>
       match evalCore hook ρ a with
